@@ -55,16 +55,8 @@ def run(ctx):
     if n_app == 0:
         ctx.broken("replay produced no Append events")
         return
-    res = c07.validate_sharded(ctx, events, "appends", shards=4 if q else 12, timeout=3000)
-    ok = c07.report_trace(ctx, res, "appends", n_app, c07.DEV_TEXT)
-    ctx.cov["exhaustive"] = not q
-    ctx.cov["append_not_equal_fresh_layout"] = res["not_fresh"]
-    if not ok:
-        return
-
     def corrupt(rs):
-        # move the last leaf of an appended tree one level up: sizes stay right, the depth rule breaks ... simpler and
-        # sharper: drop the last leaf of the appended tree without touching sizes => content/sizes rule must fire
+        # drop the last child (and its blocksize) of an appended tree: the size/content rules must fire at that event
         for i, r in enumerate(rs):
             if r.get("ev") == "Append" and r["tree"].get("k") == "in" and len(r["tree"]["ch"]) >= 2 and r.get("vt") == "":
                 j = i
@@ -76,20 +68,30 @@ def run(ctx):
                 t["bs"].pop()
                 return bad, 2
         return None, None
-    c07.negative_control(ctx, events, "appends", corrupt)
 
-    # T: random bases and chains of appends
-    recs, out, rc = ctx.go_run(binp, "TestVerifC08", pkg=PKG, mode="record", timeout=900)
-    if rc != 0 or not recs:
-        ctx.broken("record driver died: " + out[-1500:])
-        return
-    n_app2 = sum(1 for r in recs if r.get("ev") == "Append")
-    for r in recs:
-        if r.get("ev") == "Append":
-            ctx.nontrivial(("T", r["L2"], r["chunker"], r["nodes"]))
-    res2 = c07.validate_sharded(ctx, recs, "chains", shards=4 if q else 12, timeout=3000)
-    c07.report_trace(ctx, res2, "chains", n_app2, c07.DEV_TEXT)
-    ctx.cov["append_not_equal_fresh_layout"] += res2["not_fresh"]
+    def chains():
+        # T: random bases and chains of appends
+        recs, out, rc = ctx.go_run(binp, "TestVerifC08", pkg=PKG, mode="record", timeout=900)
+        if rc != 0 or not recs:
+            ctx.broken("record driver died: " + out[-1500:])
+            return None, None
+        return recs, c07.validate_sharded(ctx, recs, "chains", shards=3 if q else 10, timeout=3000)
+
+    # the three validations are independent TLC runs
+    res, (recs, res2), _ = c07.parallel(
+        lambda: c07.validate_sharded(ctx, events, "appends", shards=4 if q else 10, timeout=3000),
+        chains,
+        lambda: c07.negative_control(ctx, events, "appends", corrupt))
+    ctx.cov["exhaustive"] = not q
+    ok = c07.report_trace(ctx, res, "appends", n_app, c07.DEV_TEXT)
+    ctx.cov["append_not_equal_fresh_layout"] = res["not_fresh"]
     samp = next((e for e in events if e["ev"] == "Append" and 4 <= len(json.dumps(e)) <= 900), None)
     if samp:
         ctx.sample(samp)
+    if recs is None:
+        return
+    for r in recs:
+        if r.get("ev") == "Append":
+            ctx.nontrivial(("T", r["L2"], r["chunker"], r["nodes"]))
+    c07.report_trace(ctx, res2, "chains", sum(1 for r in recs if r.get("ev") == "Append"), c07.DEV_TEXT)
+    ctx.cov["append_not_equal_fresh_layout"] += res2["not_fresh"]
